@@ -49,6 +49,22 @@ CHECKS = {
              "free-text literals stop only at their own delimiter, the "
              "backslash arm keeps escaped delimiters in the payload.",
         ref="DESIGN.md §3 C03"),
+    "C06": dict(
+        technique="class-exhaustive transducer composition: the four stages "
+                  "(quotify escape table, lexer back-quote branch, "
+                  "uncompress_dict, escaping loop) interpreted from source on "
+                  "a character-class alphabet, plus structural "
+                  "character-wise-ness checks",
+        category="other",
+        text="Decides the round trip over a character-class abstraction: "
+             "quotify's escape table (backslash first), the lexer's "
+             "back-quote branch, dictionary decompression and the escaping "
+             "loop are composed with python's literal semantics on every "
+             "class string of length <= 2 (3 thorough); each stage is shown "
+             "character-wise up to backslash pairs, so identity on classes "
+             "and adjacent pairs extends to all strings. Does not decide "
+             "dictionary words themselves.",
+        ref="DESIGN.md §3 C06"),
     "C07": dict(
         technique="exact-arithmetic vocabulary check (abstract typing "
                   "int/Rational vs float) of the (num, num) overload arms "
